@@ -206,7 +206,7 @@ def c15_mergekeep(R):
 @rule(
     "C09.compsimpl",
     props=("C09", "C12"),
-    floor=2,
+    floor=1,
     family="PAIR",
     desc="SolverComposite.simplify rebuilds its constraint list from its children: every way through one round of the "
     "loop over the children (the early `continue` for an already simplified child included) adds that child's constraints "
